@@ -236,6 +236,37 @@ pub fn boundary_families(full: bool) -> Vec<(String, String)> {
         push("bf:version", format!("%YAML {}.2\n--- a\n", "1".repeat(n)));
         push("bf:version-minor", format!("%YAML 1.{}\n--- a\n", "2".repeat(n)));
     }
+    // every prefix of compact documents that between them use every construct (end of input at every position)
+    for t in [
+        "a: b\nc:\n  - d\n  - e: f\n", "- a\n-\n  - b\n  - c\n- d: e\n", "? a\n: b\n? c\n", "[a, b: c, {d: e}, [f]]\n", "{a: b, c, ? d : e, f: [g, h]}\n", "&a a: *a\nb: &b [*a]\n",
+        "!t a: !!str b\n!<x:y> c: d\n", "k: |\n  a\n   b\n\n  c\nj: >-\n  d\n  e\n", "k: |2+\n   a\n\nj: >1-\n  b\n", "'a ''b'' c': \"d\\te \\u00e9 \\\n  f\"\n", "\"a\n\n b\"\n", "'a\n b\n\n c'\n",
+        "a\n b\n\n c\n", "%YAML 1.2\n%TAG !e! tag:e:\n--- !e!x a\n...\n%FOO bar\n--- b\n", "--- a\n... # c\n--- |\n b\n---\n- c\n...\n", "a: b # c\n# d\n\ne: f\n", "- - a\n  - b\n- ? c\n  : d\n", "a:\n- b\n- c\nd: e\n",
+        "[\n  a,\n  b: c,\n]\n", "{\n  a: b,\n  c: d\n}\n", "- [a, [b, {c: d}]]\n- {e: [f]}\n", "a: &x\n  b: c\nd: *x\n", "- !!seq\n  - a\n- !!map\n  k: v\n", "\u{FEFF}a: b\n", "a: \"b\" # c\n\"d\": 'e'\n",
+        "? [a, b]\n: {c: d}\n", "- |\n a\n- >\n b\n\n c\n", "a: - b\n", "a:\tb\n-\tc\n", "{\"a\":1,\"b\":[true,null],\"c\":{\"d\":\"e\"}}\n", "a\r\nb: c\r- d\r\n",
+    ] {
+        let cs: Vec<char> = t.chars().collect();
+        for i in 0..=cs.len() {
+            push("bf:prefix", cs[..i].iter().collect::<String>());
+        }
+    }
+    // a line that starts with a tab, after every kind of line ending
+    for prev in ["a:", "-", "a: \"q\"", "- x", "? k", "a: [", "# c", "a: |", "a: 'q'", "- [x]", "- {x: y}", "a: &n", "a: !t", "---", "--- a", "a: b # c", "a: b", "- ", "a: *n", "[", "{a: b,"] {
+        for next in ["b: 1", "y", "- z", "]", "# c", "", "\"q\"", "b", " b", "\tb"] {
+            for brk in ["\n", "\r\n", "\r"] {
+                push("bf:tabline", format!("{prev}{brk}\t{next}{brk}"));
+                push("bf:tabline-indented", format!("k:{brk}  {prev}{brk}  \t{next}{brk}"));
+                push("bf:tabline-after-space", format!("{prev}{brk} \t{next}{brk}"));
+            }
+        }
+    }
+    // a document marker as the very last thing of the input, with and without a break or blanks after it
+    for before in ["a\n", "a: b\n", "- a\n", "\"a\n", "'a\n", "a: |\n  b\n", "[a\n", "a\n b\n", "# c\n", "--- a\n", "a: \"b\n  c\n", "k:\n  - a\n", "", "\n", "a: >\n b\n\n", "&x a\n", "!t\n"] {
+        for m in ["...", "---", " ...", " ---", "....", "----", "..", "--", "...a", "---a", "... a", "--- a", "... #", "--- #"] {
+            for after in ["", "\n", " ", "\t", " \n", "\r", "\r\n", "\n\n"] {
+                push("bf:marker-at-end", format!("{before}{m}{after}"));
+            }
+        }
+    }
     // inputs ending after every token kind, with and without final break
     for t in ["a", "- a", "- ", "-", "k:", "k: v", "? k", "? ", ": v", "[a", "[a,", "[a]", "{a", "{a: b", "{a: b}", "&a", "&a b", "*a", "!t", "!!str a", "|", ">", "|+", "|-", ">2", "'a'", "'a", "\"a\"", "\"a", "\"a\\", "---", "--- a", "...", "%YAML 1.2", "%TAG ! x", "# c", "a #c", "a:", "a: |", "- |", "- >-", "k: |2", "k: &a", "k: !t", "k: *a"] {
         push("bf:ending", t.to_string());
